@@ -28,6 +28,7 @@ type PropSpec struct {
 	Note        string   `json:"note"`
 	Syntactic   []string `json:"syntactic"`    // names of syntactic discipline checks to run (see synt.go)
 	Rows        []string `json:"rows"`         // registration tables whose rows are obligations (regtab.go)
+	Also        []string `json:"also"`         // substrings of obligation names carrying another property's tag that this property relies on too
 }
 
 // Twin is a must-fail variant: the named function is regenerated with one
@@ -110,7 +111,15 @@ func (ps *PropSpec) includes(o *Obligation) bool {
 		rest = rest[i+1:]
 	}
 	if m := propTag.FindStringSubmatch(rest); m != nil {
-		return ps.Tag != "" && m[1] == ps.Tag
+		if ps.Tag != "" && m[1] == ps.Tag {
+			return true
+		}
+		for _, a := range ps.Also {
+			if strings.Contains(o.Name, a) {
+				return true
+			}
+		}
+		return false
 	}
 	// untagged obligations: optionally only from selected functions
 	if len(ps.UntaggedFrom) > 0 {
